@@ -1,8 +1,62 @@
 package checks
 
+import (
+	"fmt"
+
+	ap "verif/apmodel"
+)
+
 // AddressingCorpus is the generated addressing family of the thorough tier: the same collection
-// named twice, a collection also used as object / target / tag, the actor also a recipient.
+// named twice, a collection also used as object / target / tag / inReplyTo, the actor also a
+// recipient, duplicate recipients with stored inboxes, targets named twice.
 func AddressingCorpus() []*Scenario {
 	var s []*Scenario
+	add := func(name, entry, url string, kind ap.ActorKind, body M) {
+		s = append(s, &Scenario{Name: "addr/" + name, Kind: kind, Entry: entry, URL: url, Body: body})
+	}
+	rnote := Emb("Note", "https://r1.example/n/10", "attributedTo", Carol, "content", "x", "inReplyTo", Note1)
+	colls := []string{Col1, OCol1}
+	props := []string{"to", "cc", "audience"}
+	// inbox: forwarding with every pair of addressing slots over the two owned collections (incl. the same one twice)
+	for i, a := range colls {
+		for j, b := range colls {
+			for pi, p1 := range props {
+				for _, p2 := range props[pi:] {
+					d := Doc("Create", RAct, "actor", Carol, "object", rnote)
+					if p1 == p2 {
+						d[p1] = L{a, b}
+					} else {
+						d[p1], d[p2] = a, b
+					}
+					add(fmt.Sprintf("forward-%s=%d-%s=%d", p1, i, p2, j), "PostInbox", inbox(Alice), ap.Both, d)
+				}
+			}
+		}
+	}
+	// inbox: an owned collection that is also the reply value examined by the forwarding search
+	for _, link := range []string{"object", "target", "tag", "inReplyTo"} {
+		for _, c := range colls {
+			d := Doc("Offer", RAct, "actor", Carol, "to", L{c, Carol}, link, c)
+			add("forward-collection-also-"+link+"-"+shortID(c), "PostInbox", inbox(Alice), ap.Both, d)
+			d2 := Doc("Offer", RAct, "actor", Carol, "to", c, link, Emb("Note", Note1, "inReplyTo", c))
+			add("forward-collection-nested-in-"+link+"-"+shortID(c), "PostInbox", inbox(Alice), ap.Both, d2)
+		}
+	}
+	// inbox: Add / Remove naming one owned target twice, object also the target
+	for _, typ := range []string{"Add", "Remove"} {
+		add(typ+"-target-twice", "PostInbox", inbox(Alice), ap.Both, Doc(typ, RAct, "actor", Carol, "object", Dave, "target", L{Col1, Col1}))
+		add(typ+"-object-is-target", "PostInbox", inbox(Alice), ap.Both, Doc(typ, RAct, "actor", Carol, "object", Col1, "target", L{Col1, OCol1}))
+	}
+	// inbox: Like / Announce naming one owned object twice
+	add("like-object-twice", "PostInbox", inbox(Alice), ap.Both, Doc("Like", RAct, "actor", Carol, "object", L{Note1, Note1}))
+	add("announce-object-twice", "PostInbox", inbox(Alice), ap.Both, Doc("Announce", RAct, "actor", Carol, "object", L{Note2, Emb("Note", Note2)}))
+	// outbox: recipients repeated, the actor itself a recipient, collection addressed twice
+	add("out-dave-twice", "PostOutbox", outbox(Alice), ap.Both, Doc("Note", "", "content", "x", "to", L{Dave, Dave}, "cc", Dave))
+	add("out-actor-recipient", "PostOutbox", outbox(Alice), ap.Both, Doc("Note", "", "content", "x", "to", L{Alice, Carol}, "bcc", Alice))
+	add("out-collection-twice", "PostOutbox", outbox(Alice), ap.Both, Doc("Announce", "", "actor", Alice, "object", RNote, "to", L{RCol, RCol}, "audience", RCol))
+	add("out-add-target-twice", "PostOutbox", outbox(Alice), ap.Both, Doc("Add", "", "actor", Alice, "object", RNote, "target", L{Col1, Col1}, "to", Carol))
+	add("out-update-same-object-twice", "PostOutbox", outbox(Alice), ap.Both, Doc("Update", "", "actor", Alice, "object", L{Emb("Note", Note1, "content", "a"), Emb("Note", Note1, "summary", "b")}, "to", Carol))
+	add("out-delete-same-object-twice", "PostOutbox", outbox(Alice), ap.Both, Doc("Delete", "", "actor", Alice, "object", L{Note1, Note1}, "to", Carol))
+	add("out-like-actor-object", "PostOutbox", outbox(Alice), ap.Both, Doc("Like", "", "actor", Alice, "object", L{Alice, RNote}, "to", Alice))
 	return s
 }
